@@ -2,6 +2,7 @@ mod assets;
 mod corrupt;
 mod exec;
 mod harness;
+mod jumbf;
 mod ops;
 mod props;
 mod report;
